@@ -352,6 +352,76 @@ func raceFactsLean(repo string, vals map[string]int) string {
 		}
 		return "[" + strings.Join(p, ", ") + "]"
 	}
-	fmt.Fprintf(&sb, "],\n  abortStates := %s,\n  approveStates := %s }\n\nend ShipVerif.Generated\n", nat(userStates(funcs["AbortPendingHandshake"], vals)), nat(userStates(funcs["ApprovePendingHandshake"], vals)))
+	fmt.Fprintf(&sb, "],\n  abortStates := %s,\n  approveStates := %s }\n\n", nat(userStates(funcs["AbortPendingHandshake"], vals)), nat(userStates(funcs["ApprovePendingHandshake"], vals)))
+	// where the ready branch of hello is entered, and under which condition in the dispatch
+	isReadyInit := func(c *ast.CallExpr) bool {
+		n := sel(c.Fun)
+		return (n == "setState" || n == "setAndHandleState") && len(c.Args) > 0 && sel(c.Args[0]) == "SmeHelloStateReadyInit"
+	}
+	var sites []string
+	for name, fd := range funcs {
+		found := false
+		ast.Inspect(fd, func(n ast.Node) bool {
+			if c, ok := n.(*ast.CallExpr); ok && isReadyInit(c) {
+				found = true
+			}
+			return true
+		})
+		if found {
+			sites = append(sites, name)
+		}
+	}
+	sort.Strings(sites)
+	guard := map[string]bool{}
+	if hs != nil {
+		ast.Inspect(hs, func(n ast.Node) bool {
+			is, ok := n.(*ast.IfStmt)
+			if !ok {
+				return true
+			}
+			in := false
+			for _, st := range is.Body.List {
+				if es, ok := st.(*ast.ExprStmt); ok {
+					if c, ok := es.X.(*ast.CallExpr); ok && isReadyInit(c) {
+						in = true
+					}
+				}
+			}
+			if !in {
+				return true
+			}
+			ast.Inspect(is.Cond, func(m ast.Node) bool {
+				switch x := m.(type) {
+				case *ast.CallExpr:
+					guard[sel(x.Fun)] = true
+				case *ast.Ident:
+					if strings.HasPrefix(x.Name, "ShipRole") {
+						guard[x.Name] = true
+					}
+				case *ast.BinaryExpr:
+					if x.Op != token.LOR && x.Op != token.EQL {
+						guard["OTHER-OPERATOR "+x.Op.String()] = true
+					}
+				case *ast.UnaryExpr:
+					guard["OTHER-OPERATOR "+x.Op.String()] = true
+				}
+				return true
+			})
+			return true
+		})
+	}
+	var gs []string
+	for k := range guard {
+		gs = append(gs, k)
+	}
+	sort.Strings(gs)
+	strs := func(xs []string) string {
+		var p []string
+		for _, x := range xs {
+			p = append(p, leanStr(x))
+		}
+		return "[" + strings.Join(p, ", ") + "]"
+	}
+	fmt.Fprintf(&sb, "/-- the functions of package ship that assign SmeHelloStateReadyInit -/\ndef readyInitSites : List String := %s\n\n/-- handleState: what the condition of the branch that assigns SmeHelloStateReadyInit consists of (calls, role constants; anything but `||` and `==` is listed as OTHER-OPERATOR) -/\ndef readyInitGuard : List String := %s\n\nend ShipVerif.Generated\n", strs(sites), strs(gs))
 	return sb.String()
 }
